@@ -145,6 +145,7 @@ inline const T* GraphVertex::get_graph_context() const noexcept {
 }
 
 inline bool GraphVertex::ready(GraphDependency*) noexcept {
+  BABYLON_VERIF_POINT("af:vertex_ready");
   return _waiting_num.fetch_sub(1, ::std::memory_order_acq_rel) == 1;
 }
 
